@@ -324,7 +324,15 @@ func (r *Report) Write(path string) {
 func safely(f func()) (panicMsg string) {
 	defer func() {
 		if e := recover(); e != nil {
-			panicMsg = fmt.Sprintf("PANIC(%v)", e)
+			// the panic value may itself panic when printed
+			panicMsg = func() (m string) {
+				defer func() {
+					if recover() != nil {
+						m = fmt.Sprintf("PANIC(%T)", e)
+					}
+				}()
+				return fmt.Sprintf("PANIC(%v)", e)
+			}()
 		}
 	}()
 	f()
